@@ -54,6 +54,9 @@ abbrev UrlPolicy := Url.URL → Bool
 abbrev UrlRewriter := Url.URL → Url.URL
 
 structure Policy where
+  /-- `init()` has run: `NewPolicy()` sets it; a zero-value `Policy{}` gets it on the first
+      builder call that touches a table, or on the first `sanitize` -/
+  initialized : Bool := false
   addSpaces : Bool := false
   requireNoFollow : Bool := false
   requireNoFollowFullyQualifiedLinks : Bool := false
@@ -163,9 +166,26 @@ def attrsOnElement (p : Policy) (names : List Bytes) (re : Option Pat) (allowEmp
       elsAndAttrs := p.elsAndAttrs.update element [] id }
   else p
 
+/-- `p.init()`: on a policy that is not yet initialised every table is (re)created empty —
+    which discards scheme patterns registered earlier with `AllowURLSchemesMatching` on a
+    zero-value policy, the only table a builder call can fill without initialising -/
+def Policy.ensureInit (p : Policy) : Policy :=
+  if p.initialized then p
+  else { p with initialized := true, elsAndAttrs := [], elsMatchingAndAttrs := [], globalAttrs := [],
+                elsAndStyles := [], elsMatchingAndStyles := [], globalStyles := [], allowURLSchemes := [],
+                allowURLSchemeRegexps := [], setOfElementsAllowedWithoutAttrs := [],
+                setOfElementsToSkipContent := [] }
+
+/-- does this builder call start with `p.init()`? -/
+def BuilderOp.callsInit : BuilderOp → Bool
+  | .allowElements _ | .allowElementsMatching _ | .allowAttrs _ _ _ _ | .allowStyles _ _ _
+  | .allowURLSchemes _ | .allowURLSchemeWithCustomPolicy _ _ | .skipElementsContent _
+  | .allowElementsContent _ | .allowUnsafe _ => true
+  | _ => false
+
 /-- `applyOp dflt p op`: the effect of one builder call; `dflt prop value` is
     `css.GetDefaultHandler(prop)(value)`. -/
-def applyOp (dflt : Bytes → Bytes → Bool) (p : Policy) : BuilderOp → Policy
+def applyOpInit (dflt : Bytes → Bytes → Bool) (p : Policy) : BuilderOp → Policy
   | .allowElements names =>
     names.foldl (fun p e => { p with elsAndAttrs := p.elsAndAttrs.update (toLowerName e) [] id }) p
   | .allowElementsMatching r =>
@@ -236,6 +256,9 @@ def applyOp (dflt : Bytes → Bytes → Bool) (p : Policy) : BuilderOp → Polic
     names.foldl (fun p e =>
       { p with setOfElementsToSkipContent := p.setOfElementsToSkipContent.filter (· != toLowerName e) }) p
   | .allowUnsafe b => { p with allowUnsafe := b }
+
+def applyOp (dflt : Bytes → Bytes → Bool) (p : Policy) (op : BuilderOp) : Policy :=
+  applyOpInit dflt (if op.callsInit then p.ensureInit else p) op
 
 def applyOps (dflt : Bytes → Bytes → Bool) (p : Policy) (ops : List BuilderOp) : Policy :=
   ops.foldl (applyOp dflt) p
